@@ -212,6 +212,13 @@ struct Dispatcher::Data {
                 MUSTACHE_VERIF_SCHED(kWaiterEmpty, verif_thread, verif_queue);
                 break;
             }
+            if (queue.isLocked()) {
+                // a job of this serial queue is still running: the next one must not start before it ends
+                MUSTACHE_VERIF_SCHED(kWaiterBlocked, verif_thread, verif_queue);
+                lock.unlock();
+                std::this_thread::yield();
+                continue;
+            }
             auto job = std::move(queue.front());
 
             queue.pop();
@@ -230,16 +237,20 @@ struct Dispatcher::Data {
         }
         {
             MUSTACHE_PROFILER_BLOCK_LVL_3("Wait other threads");
-            if (queue.state == JobState::kParallelQueue) {
+            if (&queue == &parallel_jobs) {
                 const auto num_threads = threads.size();
                 while (threads_waiting != num_threads) {
                     MUSTACHE_VERIF_SCHED(kWaiterSpin, verif_thread, verif_queue);
                     std::this_thread::yield();
                 }
             } else {
+                // the state of a serial queue is only accessed with the mutex held
+                std::unique_lock<std::mutex> lock{mutex};
                 while (queue.isLocked()) {
                     MUSTACHE_VERIF_SCHED(kWaiterSpin, verif_thread, verif_queue);
+                    lock.unlock();
                     std::this_thread::yield();
+                    lock.lock();
                 }
             }
         }
